@@ -23,6 +23,10 @@ ASSUMPTIONS = [
     "CRC of decoded data = identity of the byte range hashed (CRCF(folder,start,end)); intact archive: the stored digest of "
     "member i equals CRCF of exactly its range",
     "NUMBER token summary justified by C17.a/b; get_memory_limit() arbitrary >= 1",
+    "B.section_differential: the reference parsers of vf/ref7z.py are the oracle; they follow the format description and, "
+    "where it is ambiguous, 7-Zip's reader (packed streams need sizes); anti-items, external data and archive properties are "
+    "refused by the reference, i.e. outside; declared counts > 8 are cut; SubstreamsInfo is parsed in the context of two "
+    "one-coder folders of 5 and 7 bytes, the second with a folder CRC; what only py7zr accepts is counted, not judged",
 ]
 
 
